@@ -291,22 +291,44 @@ def norm_files(line):
     """mask the dee field (never compared) in the snapshot/export files of E lines, and in keys that
     contain a packed value"""
     parts = line.split(" ")
-    out = []
+    out, run, masked = [], [], False
+
+    def flush():
+        nonlocal run, masked
+        out.extend(sorted(run) if masked else run)   # masking can change the byte order of such keys
+        run, masked = [], False
     for p in parts:
         m = re.fullmatch(r"([sf]\d+)=([0-9a-f]+|-)", p)
         k = re.fullmatch(r"([0-9a-f]+):(-?\d+):(\d+)", p)
+        if k:
+            if len(k.group(1)) % 2 == 0 and b" d=" in unhx(k.group(1)):
+                # (out-of-domain keys only) a packed value that leaked into a key through a line break
+                run.append("%s:%s:%s" % (hx(DEE_RE.sub(b" d=* t=", unhx(k.group(1)))), k.group(2), k.group(3)))
+                masked = True
+            else:
+                run.append(p)
+            continue
+        flush()
         if m and len(m.group(2)) % 2 == 0:
             body = DEE_RE.sub(b" d=* t=", unhx(m.group(2)))
             out.append("%s=%s" % (m.group(1), hx(body)))
-        elif k and len(k.group(1)) % 2 == 0 and b" d=" in unhx(k.group(1)):
-            # (out-of-domain keys only) a packed value that leaked into a key through a line break
-            out.append("%s:%s:%s" % (hx(DEE_RE.sub(b" d=* t=", unhx(k.group(1)))), k.group(2), k.group(3)))
         else:
             out.append(p)
+    flush()
     return " ".join(out)
 
 
-def check_merge(before, sources, after):
+def wf_key(k):
+    """Udb/TsvProofs.v wf_key: code TAB text, code starts with a byte >= 0x20 other than '#', ends with a
+    blank, no LF; text non-empty.  Keys outside (they can only arise here by importing a file of the other
+    format) are not representable in a snapshot line and are outside the round-trip clause."""
+    p = k.split(b"\t")
+    if len(p) != 2 or not p[0] or not p[1] or b"\n" in k:
+        return False
+    return p[0][0] >= 0x20 and p[0][:1] != b"#" and p[0][-1:] == b" "
+
+
+def check_merge(before, sources, after, stats=None):
     """the property's merge clauses on implementation dumps; returns list of (class, detail)"""
     bad = []
     for k in before["ents"]:
@@ -314,6 +336,10 @@ def check_merge(before, sources, after):
             bad.append(("key-lost-ours", k))
     for s in sources:
         for k in s["ents"]:
+            if not wf_key(k):
+                if stats is not None:
+                    stats["non_wf_snapshot_keys"] = stats.get("non_wf_snapshot_keys", 0) + 1
+                continue
             if k not in after["ents"]:
                 bad.append(("key-lost-theirs", k))
     for k, (c, t) in after["ents"].items():
@@ -323,7 +349,8 @@ def check_merge(before, sources, after):
             if abs(c) < abs(before["ents"][k][0]):
                 bad.append(("magnitude-lowered", k))
                 continue
-        if mags and abs(c) != max(mags):
+        # a key that no snapshot line can carry may or may not have reached the merger (DbSource does, a file does not)
+        if mags and wf_key(k) and abs(c) != max(mags):
             bad.append(("magnitude-not-max", k))
     # tick: the maximum of both sides.  A snapshot without entries may leave the tick alone (CloseMerge
     # returns early when nothing was merged) or raise it to the maximum; both are accepted (see
@@ -555,7 +582,7 @@ def run(ctx):
                 bad = []
                 if sources is not None:
                     stats["merging_ops"] += 1
-                    bad += check_merge(before, sources, after)
+                    bad += check_merge(before, sources, after, stats)
                     for s in sources:
                         for cl in merge_classes(before, s):
                             stats["merge_classes"][cl] = stats["merge_classes"].get(cl, 0) + 1
@@ -570,8 +597,8 @@ def run(ctx):
                                 stats["empty_snapshot_tick_kept"] += 1
                     if len(sources) == 1 and not before["ents"] and k in ("restore", "restoref"):
                         stats["roundtrips"] += 1
-                        want = {kk: vv[0] for kk, vv in sources[0]["ents"].items()}
-                        have = {kk: vv[0] for kk, vv in after["ents"].items()}
+                        want = {kk: vv[0] for kk, vv in sources[0]["ents"].items() if wf_key(kk)}
+                        have = {kk: vv[0] for kk, vv in after["ents"].items() if kk in want}
                         if want != have:
                             bad.append(("roundtrip-differs", b"%d entries in the snapshot, %d restored" % (len(want), len(have))))
                     if prev is not None and prev[0] == (k, i, x) and k in ("merge", "restore", "restoref") and ret == prev[2]:
@@ -684,16 +711,30 @@ def run_memcheck(ctx, work):
 
 MANIFEST = {
     "category": "proof",
-    "technique": "Coq theorems over a Gallina port of UserDbValue/UserDbMerger/UserDbImporter/TSV codec/UserDictManager, member-initialisation "
-                 "facts regenerated from the clang AST (translator), extracted-model/implementation correspondence on LevelDB dictionaries, "
-                 "property oracle on implementation dumps, memcheck support run",
-    "text": "Properties_C17.v proves for all dictionaries (induction over entry lists, no size bound): merging a snapshot keeps every key of "
-            "both sides, leaves each entry with the larger of the two magnitudes (theirs when strictly larger, else ours), never lowers a "
-            "magnitude, sets the tick to the maximum of both when at least one entry is merged, is idempotent on (key, commits, tick); "
-            "backup then restore into an empty dictionary reproduces every well-formed entry's key and commit count; the import rule; and "
-            "that no uninitialised member is read given the constructor facts the translator extracts from the current user_db.cc.",
-    "note": "Trusted: Coq kernel + vm_compute; gen/udb_inits.py; the port in coq/Udb/*.v (validated by differential testing against the "
-            "real classes on LevelDB, dee erased and never compared); ExtrOcamlBasic extraction and glue. Hypotheses: dee prints without "
-            "blanks and parses again; commit counts above INT_MIN; well-formed keys (one TAB, code ends with a blank, first byte >= 0x20 "
-            "and not '#', no LF). Tick clause needs >= 1 merged entry (CloseMerge's early return).",
+    "technique": "Coq theorems over a Gallina port of UserDbValue/UserDbMerger/UserDbImporter/TSV codec/UserDictManager; member-initialisation "
+                 "facts regenerated from the clang AST of user_db.cc (translator); extracted-model vs implementation correspondence on LevelDB "
+                 "dictionaries after every operation; the property's oracle on implementation dumps; valgrind memcheck support run",
+    "text": "Properties_C17.v proves for all dictionaries (inductions over entry lists, no size bound) and an abstract double: merging a snapshot "
+            "keeps every key of both sides and invents none (C17_merge_keys_kept), leaves each snapshot entry with the larger of the two "
+            "magnitudes - theirs iff strictly larger, else ours - stamped with the new tick (C17_merge_magnitude_max, C17_merge_one_sided_kept), "
+            "never lowers a magnitude (C17_merge_never_lowers), sets the tick to the maximum of both when the snapshot contributes at least one "
+            "entry (C17_merge_tick_max; the unconditional statement is refuted by the empty snapshot, C17_merge_tick_max_full_refuted / "
+            "C17_merge_empty_snapshot_noop), is idempotent on (key, commits, tick) and the tick (C17_merge_idempotent); UniformBackup then "
+            "UniformRestore reproduces every record of a well-formed dictionary byte for byte (C17_snapshot_roundtrip) and UserDictManager "
+            "Backup -> Restore into an empty dictionary reproduces exactly the keys with their commit counts (C17_backup_restore_into_empty); "
+            "the import rule (C17_import_semantics) and the export/import line codec (C17_export_import_line); over every history of "
+            "backup/restore/synchronize/export/merge operations no dictionary loses an entry or lowers a magnitude (C17_history_never_loses); "
+            "and, given the constructor facts extracted from the current source (C17_members_initialised, "
+            "C17_ctor_initialises_merged_entries), a merge reads no uninitialised member and is independent of the storage's previous "
+            "content (C17_merge_reads_initialised).  Each implication has a computed example beside it.",
+    "note": "No axioms (Print Assumptions: closed under the global context; thorough also runs coqchk). Trusted: Coq kernel + vm_compute; "
+            "gen/udb_inits.py (clang JSON AST -> init facts, refuses with translator_ok := false); the port in coq/Udb/*.v (validated by "
+            "differential testing against the real classes on LevelDB after every operation, including out-of-domain keys/values/files; the "
+            "double is erased in the extracted instance and never compared); ExtrOcamlBasic extraction and the OCaml/C++ glue. Hypotheses: a "
+            "printed double has no blank and parses again; commit counts above INT_MIN (abs(INT_MIN) is undefined in C++); round trip only "
+            "for well-formed keys (code TAB text, code starting with a byte >= 0x20 other than '#' and ending with a blank, no LF; other keys "
+            "cannot be carried by a snapshot line); tick clause needs >= 1 merged entry (CloseMerge's early return; judged not to break the "
+            "property, DESIGN.md section 9); the sync directory's iteration order is an input.  Gaps: whole-file export->import round trip is "
+            "covered by correspondence and the per-line theorem only; std::abs(INT_MIN) and the int overflow of `commits + 1` in "
+            "table_db.cc:32 for a weight of INT_MAX are outside the model.",
 }
